@@ -83,7 +83,7 @@ def bind_key(I, state, sym, roles, constraint=None):
     # everything else starts from the default closed under the states written so far
     saved = state.written
     I.sym_info[sym] = (frozenset(roles), constraint)
-    tags = I.role_tags(frozenset(roles))
+    tags = I.common_role_tags(frozenset(roles))
     if constraint is None and any(t in I.cfg.cell_init for t in tags):
         state.written = frozenset()
     I.load_root(state, root)
@@ -600,11 +600,14 @@ def anonymise(av):
         return None
     if av[0] == "key":
         roles = set()
+        direct = set()
         for r in av[2]:
             if isinstance(r, tuple) and r[0] in ("via", "was"):
                 roles.add(r)
             else:
-                roles.add(("via", r))
+                direct.add(r)
+        if direct:
+            roles.add(("via", frozenset(direct)))     # one origin = the conjunction of its roles
         if av[1] is not None:
             roles.add(("was", av[1]))
         return ("key", None, frozenset(roles), av[3])
@@ -1230,7 +1233,8 @@ def m_edge_weight(I, state, frame, bi, t, args, span):
         def unvia(roles):
             for r in roles:
                 if isinstance(r, tuple) and r[0] == "via":
-                    yield r[1]
+                    for x in r[1]:
+                        yield x
                 else:
                     yield r
         for r in unvia(a[2]):
